@@ -451,7 +451,7 @@ package xixi_kv
 //@   modifies db.totalSize, db.reclaimSize, db.index.model, db.index.count, db.index.live
 
 //@ func (*xixi_kv.DB).loadIndexFromDataFiles
-//@   props C02 C04 C17 C12 C16 C03
+//@   props C02 C04 C17 C12 C16 C03 C14
 //@   io_effect
 //@   unshared db
 //@   requires [db]    INV_index(db.index) && INV_files(db) && db.activeFile.ID < 4294967295 && len(db.activeFile.bufferedWrites) == 0
@@ -466,6 +466,9 @@ package xixi_kv
 //@   at (*xixi_kv.DB).loadIndexFromDataFiles$1 assert [applied-at-its-own-position] arg2 != nil
 //@   at (*xixi_kv.DB).loadIndexFromDataFiles$1 assume [byte-counters-do-not-overflow] db.totalSize <= 6917529027641081856 && db.reclaimSize <= 6917529027641081856
 //@   at (*xixi_kv.DB).sync assert [only-to-seal-a-torn-active-file] tornTail
+// a batch is applied once: when its sealing record has been processed its pending records are forgotten, so that a
+// later batch carrying the same id (ids come from a per-batch snowflake node) cannot replay them
+//@   at builtin.delete assert [a-sealed-batch-is-forgotten] {C02,C04} arg0 == transactionRecords && arg1 == batchID && logRecord.Type == datafile.LogRecordBatchFinished
 //@   content
 //@   modifies db.totalSize, db.reclaimSize, db.index.model, db.index.count, db.index.live, db.activeFile, db.olderFiles[*], db.bytesWrite, db.activeFile.ReadWriter.durable
 //@   loop 1
